@@ -312,6 +312,8 @@ func items() []item {
 		{"rows-int", func() interface{} { return [][]int{{1}, nil, {2}} }},
 		{"rows-bytes", func() interface{} { return [][]byte{nil, {1}, {}} }},
 		{"strings", func() interface{} { return []string{"xy", "xy", "q"} }},
+		{"rows-iface", func() interface{} { return [][]interface{}{{"xy", 1}, {"xy"}, {"zz"}} }},
+		{"rows-string", func() interface{} { return [][]string{{"xy"}, {"xy", "zz"}} }},
 		{"anon-struct", func() interface{} { return struct{ A string }{"xy"} }},
 		{"shared-ptr", func() interface{} { return sharedInner }},
 		{"invalid-utf8", func() interface{} { return "\xff\xfe" }},
